@@ -58,6 +58,10 @@ def parseQ (s : String) : Option Qry :=
   | "W", some n => some (.vExt (n / 100) (n % 100))
   | "M", some n => some (.qMap (n / 10) (n % 10))
   | "S", some n => some (.qShared n)
+  | "FA", some n => some (.fAll n)
+  | "JA", some n => some (.fAll n)
+  | "FO", some n => some (.fAny n)
+  | "JO", some n => some (.fAny n)
   | "I", some n => some (.iMap (n / 1000) (n / 100 % 10) (n % 100))
   | _, _ => none
 
